@@ -375,15 +375,15 @@ def upd_streams(tier):
 
 PROPS['C10'] = dict(
     family='line', tags={'U': 'upd'},
-    theorems=['C10_outside_preserved', 'C10_tokens_well_shaped', 'C10_nothing_truncated', 'C10_fence_safe', 'C10_update_is_substitution', 'C10_same_commands'],
+    theorems=['C10_outside_preserved', 'C10_tokens_well_shaped', 'C10_nothing_truncated', 'C10_fence_safe', 'C10_update_is_substitution', 'C10_same_commands', 'C10_idempotent'],
     streams=upd_streams,
     spec_kinds=['SPEC:C10'], corr_kinds=['DIFF:update'],
     case_format='U <hex original document>|<outcome per test: ok/output/code>|<hex document after update | err | panic>|<hex document after a second update with the same outputs>|<hex commands of the original>|<hex commands parsed from the updated document>',
     rule='documents rendered from random ASTs of the Markdown grammar (see C06; 1 in 6 cut short so that the last construct is unterminated), every test given one of: its own expectation lines as output (passes when they are plain), a changed output drawn from the collision shapes of C09, a changed exit code; '
          'the real MarkdownUpdateGenerator is applied, the result parsed by the real parser, re-validated against the same outputs and updated again. Non-trivial: at least one test; distinct by document',
-    manifest=dict(text='Machine-checked theorems (Coq): for every token that is not a scrut block update writes back exactly the token lines (the only addition: the missing closing --- of an open front-matter), for all documents since the tokenizer is lossless and all its tokens are well shaped; the regenerated fence has >= 3 backticks and is closed by no line of the new body. Over the document grammar of C06, update of a rendered well-formed document IS the rendering of the same AST with new bodies and fences (C10_update_is_substitution: number, order, comments and inline configuration of blocks kept, everything else untouched), hence by the C06 round trip the updated document parses to the same titles and commands (C10_same_commands). Lines of passing tests kept and idempotence are evaluated on the implementation for every generated document x outcome vector with the token model as the measuring instrument, and the structural part of generate_update is compared with the model.',
+    manifest=dict(text='Machine-checked theorems (Coq): for every token that is not a scrut block update writes back exactly the token lines (the only addition: the missing closing --- of an open front-matter), for all documents since the tokenizer is lossless and all its tokens are well shaped; the regenerated fence has >= 3 backticks and is closed by no line of the new body. Over the document grammar of C06, update of a rendered well-formed document IS the rendering of the same AST with new bodies and fences (C10_update_is_substitution: number, order, comments and inline configuration of blocks kept, everything else untouched), hence by the C06 round trip the updated document parses to the same titles and commands (C10_same_commands), and updating it again with the same bodies returns the same document (C10_idempotent). That a test which now passes gets the same body again (lines of passing tests kept) is evaluated on the implementation for every generated document x outcome vector with the token model as the measuring instrument, and the structural part of generate_update is compared with the model.',
                   technique='Coq proof over the token automaton (losslessness, shape invariant, fence lemma) + differential runs of the real update generator applied twice',
-                  note='Partial: idempotence (update applied twice) and keeping the lines of passing tests are checked on the implementation (oracle), not proved.'),
+                  note='Partial: that the generator hands the same body to a now-passing test (lines of passing tests kept) is checked on the implementation (oracle); given that, idempotence is proved.'),
     exhaustive={'quick': False, 'thorough': False},
     assumptions=['the bodies of regenerated tests are C09\'s concern; here they are an input of the model',
                  'lines are compared by content (CRLF is read as LF and LF is written)'],
